@@ -566,6 +566,11 @@ def bundled_oracle(chk):
         m.DESCRIPTOR.CopyToProto(ref.file.add())
     from google.protobuf.compiler import plugin_pb2
     plugin_pb2.DESCRIPTOR.CopyToProto(ref.file.add())
+    syn = ref.file.add(name="synthetic.proto", package="syn")   # every scalar field of FieldDescriptorProto populated
+    sm = syn.message_type.add(name="S")
+    sm.oneof_decl.add(name="_f")
+    sm.field.add(name="f", number=7, label=1, type=9, type_name=".syn.T", extendee=".syn.E", default_value="d",
+                 oneof_index=0, json_name="jf", proto3_optional=True)
     data = ref.SerializeToString()
     mine = FileDescriptorSet().parse(data)
     n = 0
@@ -574,8 +579,10 @@ def bundled_oracle(chk):
         nonlocal n
         for fa, fb in zip(a.field, b.field):
             n += 1
-            got = (fa.name, fa.number, int(fa.label), int(fa.type), fa.type_name, fa.proto3_optional)
-            want = (fb.name, fb.number, fb.label, fb.type, fb.type_name, fb.proto3_optional)
+            got = (fa.name, fa.number, int(fa.label), int(fa.type), fa.type_name, fa.proto3_optional, fa.json_name,
+                   fa.extendee, fa.default_value, fa.oneof_index)
+            want = (fb.name, fb.number, fb.label, fb.type, fb.type_name, fb.proto3_optional, fb.json_name,
+                    fb.extendee, fb.default_value, fb.oneof_index)
             if got != want:
                 chk.fail("bundled-descriptor-misreads", {"where": where + "." + fb.name, "region": []}, "%r vs %r" % (got, want))
         if len(a.field) != len(b.field) or len(a.nested_type) != len(b.nested_type) or len(a.enum_type) != len(b.enum_type):
@@ -613,7 +620,7 @@ def run(chk, drv):
         "ruff is replaced by a pass-through shim (generated modules are unformatted)",
     ]
     bundled_oracle(chk)
-    n = 25 if quick else 400
+    n = 40 if quick else 400
     jobs = []
     feats = {}
     for i in range(n):
